@@ -35,7 +35,13 @@ class ScriptedStdin:
         if self.on_read is not None:
             self.on_read(self)
         if not self.lines:
-            raise OperatorGone("stdin")
+            # the script is used up: the input is at end of file ("" for ever); a tool that
+            # keeps reading is cut after a few reads
+            self.eof_reads = getattr(self, "eof_reads", 0) + 1
+            if self.eof_reads > 3:
+                raise OperatorGone("stdin at end of file, tool keeps reading")
+            self.read.append("")
+            return ""
         v = self.lines.pop(0)
         self.read.append(v)
         return v
